@@ -40,14 +40,39 @@ def run(ck, ix, tier):
 
     # root expansion: names are canonicalised per key inside the loop (never merged beforehand), base units accumulate
     fi = ix.func(PR, "GenericPlainRegistry._get_root_units_recurse")
+    from .. import shape
     src = norm(fi.node)
-    ck.check("key = self.get_name(key)" in src and "reg = self._units[key]" in src, "G-PROV", "_get_root_units_recurse|definition-of-canonical-name", fi.loc(), "each unit is looked up under its canonical name", "the unit definition is no longer looked up under get_name(key)")
-    ck.check("if reg.is_base:" in src and "if reg.reference is not None:" in src, "G-PROV", "_get_root_units_recurse|base-or-reference", fi.loc(), "base units accumulate, derived units recurse into their reference", "the base/derived case split is gone")
+    looks = [x for x in walk_local(fi.node) if isinstance(x, ast.Subscript) and isinstance(x.ctx, ast.Load) and norm(x.value) == "self._units"]
+    okl = bool(looks) and all(isinstance(shape.resolve(x.slice, fi.node), ast.Call) and call_name(shape.resolve(x.slice, fi.node)) == "get_name" for x in looks)
+    ck.check(okl, "G-PROV", "_get_root_units_recurse|definition-of-canonical-name", fi.loc(looks[0]) if looks else fi.loc(), "each unit is looked up under its canonical name", "the unit definition is no longer looked up under get_name(key)")
+    is_base = lambda a: isinstance(a, ast.Attribute) and a.attr == "is_base"
+    has_ref = lambda a: isinstance(a, ast.Compare) and isinstance(a.ops[0], ast.Is) and norm(a.comparators[0]) == "None" and "reference" in shape.rnorm(a.left, fi.node)
+    augs = [a_ for a_ in walk_local(fi.node) if isinstance(a_, ast.AugAssign) and isinstance(a_.target, ast.Subscript) and norm(a_.target.value) == "accumulators"]
+    adds = [a_ for a_ in augs if isinstance(a_.op, ast.Add)]
+    muls = [a_ for a_ in augs if isinstance(a_.op, ast.Mult)]
+    recs = [c_ for c_ in walk_local(fi.node) if isinstance(c_, ast.Call) and call_name(c_) == "_get_root_units_recurse"]
+    okb = len(adds) == 1 and len(muls) == 1 and len(recs) == 1 and shape.holds_at(adds[0], fi.node, is_base, True) and shape.holds_at(muls[0], fi.node, is_base, False) \
+        and shape.holds_at(recs[0], fi.node, is_base, False) and shape.holds_at(recs[0], fi.node, has_ref, False) and norm(muls[0].target.slice) == "None"
+    ck.check(okb, "G-PROV", "_get_root_units_recurse|base-or-reference", fi.loc(), "base units accumulate their exponent, derived units fold their scale into the prefactor and recurse into their reference", "the base/derived case split of the root-unit expansion changed")
     fi = ix.func(PR, "GenericPlainRegistry._get_root_units")
     src = norm(fi.node)
-    ck.check("factor = accumulators[None]" in src, "G-PROV", "_get_root_units|factor-is-scalar-accumulator", fi.loc(), "factor read from the scalar accumulator", "the factor is no longer the scalar accumulator")
-    comps = [c for c in walk_local(fi.node) if isinstance(c, ast.DictComp)]
-    ck.check(any(any("k is not None" in norm(i) for i in g.ifs) and any("v != 0" in norm(i) for g2 in c.generators for i in g2.ifs) for c in comps for g in c.generators), "G-CANON",
+    # the factor is the scalar (None) slot of the accumulator - read or popped; the units are the other slots with a
+    # non-zero exponent (the None slot is excluded by a filter or because it was popped before the comprehension)
+    rets = [r for r in shape.returns_of(fi.node) if isinstance(r.value, ast.Tuple) and len(r.value.elts) == 2]
+    scalar = lambda e: norm(e) in ("accumulators[None]", "accumulators.pop(None)")
+    fvals = [shape.resolve(r.value.elts[0], fi.node) for r in rets]
+    ck.check(bool(rets) and all(scalar(v) or (isinstance(v, ast.Constant) and v.value is None) or norm(v) == "factor" for v in fvals) and any(scalar(v) for v in fvals) or
+             any(isinstance(a_, ast.Assign) and norm(a_.targets[0]) == "factor" and scalar(a_.value) for a_ in walk_local(fi.node)),
+             "G-PROV", "_get_root_units|factor-is-scalar-accumulator", fi.loc(), "factor read from the scalar accumulator", "the factor is no longer the scalar (None) slot of the accumulator")
+    comps = [c for c in walk_local(fi.node) if isinstance(c, ast.DictComp) and "accumulators" in norm(c.generators[0].iter)]
+    popped = any(isinstance(c_, ast.Call) and norm(c_) == "accumulators.pop(None)" and c_.lineno < comps[0].lineno for c_ in walk_local(fi.node)) if comps else False
+    okc = False
+    for c in comps:
+        g = c.generators[0]
+        kv = [e.id for e in g.target.elts] if isinstance(g.target, ast.Tuple) and all(isinstance(e, ast.Name) for e in g.target.elts) else ["k", "v"]
+        ifs = [norm(i) for i in g.ifs for i in (i.values if isinstance(i, ast.BoolOp) and isinstance(i.op, ast.And) else [i])]
+        okc = okc or ((f"{kv[0]} is not None" in ifs or popped) and (f"{kv[1]} != 0" in ifs or f"{kv[1]}" in ifs))
+    ck.check(okc, "G-CANON",
              "_get_root_units|units-without-scalar-slot-and-zeros", fi.loc(), "root units exclude the scalar slot and zero exponents", "the root-units container can keep the scalar slot or zero exponents")
 
     # ------------------------------------------------------------ numeric type: literals never pass through float
@@ -139,11 +164,13 @@ def run(ck, ix, tier):
         s = norm(defs.inline(v)) if v is not None else ""
         ok = s in ("''", "self._units[name_or_alias].name", "prefix + unit_name", "unit_name")
         ck.check(ok, "G-PROV", f"get_name|returns-canonical-name|{s[:40]}", fi.loc(cfg.nodes[r].ast), "returns a canonical name", f"get_name returns `{s}`")
-    pre = [n.id for n in cfg.nodes if n.kind == "test" and norm(n.ast) == "prefix"]
+    # the bare unit name may only be returned on an edge where `prefix` is known to be empty (if prefix: ... / if not prefix: return)
+    no_prefix = shape.guard_edges(cfg, lambda a: isinstance(a, ast.Name) and a.id == "prefix", want=False)
+    pre = no_prefix
     for r in live(cfg, return_nodes(cfg)):
         v = cfg.nodes[r].ast.value
         if v is not None and norm(defs.inline(v)) == "unit_name":
-            p = cfg.all_paths_pass(cfg.entry, [r], [], avoid_edges=[(g, "f") for g in pre])
+            p = shape.reachable_without(cfg, [r], no_prefix)
             ck.check(bool(pre) and p is None, "G-PROV", "get_name|bare-unit-name-only-without-prefix", fi.loc(cfg.nodes[r].ast), "the bare unit name is returned only when there is no prefix",
                      "the unprefixed name can be returned although a prefix was parsed (prefix factor dropped)", witness(cfg, p))
     f = ix.func("pint.facets.plain.definitions", "PrefixDefinition.converter")
@@ -151,14 +178,33 @@ def run(ck, ix, tier):
 
     # ------------------------------------------------------------ _convert: twin branches; convert(): identity
     fi = ix.func(PR, "GenericPlainRegistry._convert")
-    ifs = [t for t in walk_local(fi.node) if isinstance(t, ast.If) and norm(t.test) == "inplace"]
-    ck.check(len(ifs) == 1, "G-TWIN", "_convert|inplace-split", fi.loc(), "in-place / functional split", "the in-place split of _convert is gone")
-    for t in ifs:
-        a = [x for s_ in t.body for x in ast.walk(s_) if isinstance(x, ast.AugAssign)]
-        b = [x for s_ in t.orelse for x in ast.walk(s_) if isinstance(x, ast.Assign)]
-        ok = len(a) == 1 and isinstance(a[0].op, ast.Mult) and norm(a[0].target) == "value" and norm(a[0].value) == "factor" and \
-            len(b) == 1 and norm(b[0].targets[0]) == "value" and norm(b[0].value) in ("value * factor", "factor * value")
-        ck.check(ok, "G-TWIN", "_convert|both-forms-multiply-by-factor", fi.loc(t), "value *= factor  ==  value = value * factor", "the in-place and functional forms of _convert no longer both multiply the value by the factor")
+    # whatever the split between the in-place and the functional form looks like: on every path to a normal return the
+    # value is multiplied by the conversion factor exactly once (value *= f  /  value = value * f  /  return value * f)
+    cfgc, dfc = cfg_of(fi), defs_of(fi)
+    def factorish(e):
+        r = dfc.roots(e)
+        return "call:_get_conversion_factor" in r
+    mults = []
+    for n in cfgc.nodes:
+        a_ = n.ast
+        if n.kind != "stmt" or a_ is None:
+            continue
+        if isinstance(a_, ast.AugAssign) and norm(a_.target) == "value":
+            mults.append((n.id, isinstance(a_.op, ast.Mult) and factorish(a_.value), a_))
+        else:
+            for b_ in ast.walk(a_):
+                if isinstance(b_, ast.BinOp) and isinstance(b_.op, (ast.Mult, ast.Div, ast.Add, ast.Sub)) and ("value" in (norm(b_.left), norm(b_.right))):
+                    other_ = b_.right if norm(b_.left) == "value" else b_.left
+                    mults.append((n.id, isinstance(b_.op, ast.Mult) and factorish(other_), b_))
+    ck.check(bool(mults) and all(ok_ for _, ok_, _ in mults), "G-TWIN", "_convert|both-forms-multiply-by-factor", fi.loc(), "the value is only ever multiplied by the conversion factor",
+             f"_convert combines the value with something other than `* factor`: {[norm(x) for _, ok_, x in mults if not ok_]}")
+    mids = [m for m, _, _ in mults]
+    for r in live(cfgc, return_nodes(cfgc)):
+        p_ = cfgc.all_paths_pass(cfgc.entry, [r], mids)
+        ck.check(p_ is None or r in mids, "G-TWIN", "_convert|inplace-split", fi.loc(cfgc.nodes[r].ast), "every return is preceded by the multiplication", "a path through _convert returns the value without multiplying it by the factor", witness(cfgc, p_) if r not in mids else None)
+    for m in mids:
+        twice = [x for x in mids if x != m and x in cfgc.reach([v for (v, lab) in cfgc.succ[m] if lab != "exc"])]
+        ck.check(not twice, "G-TWIN", "_convert|factor-applied-once", fi.loc(cfgc.nodes[m].ast), "the factor is applied once per path", "a path through _convert applies the factor twice")
     fi = ix.func(PR, "GenericPlainRegistry.convert")
     cfg = cfg_of(fi)
     idt = [n.id for n in cfg.nodes if n.kind == "test" and norm(n.ast) in ("src == dst", "dst == src")]
